@@ -337,6 +337,13 @@ class TranslatorC(Translator):
                     )
                 return out
 
+            elif expr.op in ['-'] and expr.size > self.NATIVE_INT_MAX_SIZE:
+                out = "bignum_sub(%s, %s)" % (
+                    self.from_expr(expr.args[0]),
+                    self.from_expr(expr.args[1])
+                )
+                return "bignum_mask(%s, %d)"% (out, expr.size)
+
             elif expr.op in ['-']:
                 return '(((%s&%s) %s (%s&%s))&%s)' % (
                     self.from_expr(expr.args[0]),
@@ -501,6 +508,26 @@ class TranslatorC(Translator):
 
             else:
                 raise NotImplementedError('Unknown op: %r' % expr.op)
+
+        elif (len(expr.args) >= 3 and is_associative(expr) and
+              expr.size > self.NATIVE_INT_MAX_SIZE):
+            op_to_bn_func = {
+                "+": "add",
+                "*": "mul",
+                "|": "or",
+                "^": "xor",
+                "&": "and",
+            }
+            args = list(expr.args)
+            out = self.from_expr(args.pop())
+            while args:
+                out = 'bignum_mask(bignum_%s(%s, %s), %d)' % (
+                    op_to_bn_func[expr.op],
+                    out,
+                    self.from_expr(args.pop()),
+                    expr.size
+                )
+            return out
 
         elif len(expr.args) >= 3 and is_associative(expr):  # ?????
             oper = ['(%s&%s)' % (
